@@ -2,7 +2,7 @@
 from __future__ import annotations
 
 from .. import compat
-from ..cluster import BufferMachine, Cluster, View
+from ..cluster import BufferMachine, Cluster, View, is_undef
 from ..gen import buffers as B
 from ..interp import Core, Violation
 from ..tape import Tape
@@ -16,7 +16,9 @@ RULE = (
     "programs: seeded buffer-family functions (memref.copy on the data-mover core, linalg.generic on the compute core, on 3 L3 arguments and "
     "3 L1 allocs; pre-existing barriers; scf.for nesting <= 3, scf.if; trip counts 0..3) compiled with insert-sync-barrier "
     "(variant A: cores skip ops of other cores by the dispatch rule re-stated in /verif; variant B: followed by dispatch-regions and executed "
-    "literally). N in 2..4 cores run the function on the simulated cluster under K seeded schedules with stalls and burst sizes 1/2/whole. "
+    "literally; variants C / D: allocations placed late and explicit deallocs, compiled with the static-allocation slice of the snaxc pipeline "
+    "insert-sync-barrier,memref-to-snax,canonicalize,snax-allocate{mode=minimalloc},insert-sync-barrier [,dispatch-regions] and executed on "
+    "address-indexed L1 cells, so that two buffers the allocator put at one address are one piece of memory). N in 2..4 cores run the function on the simulated cluster under K seeded schedules with stalls and burst sizes 1/2/whole. "
     "Online: barrier-epoch race monitor on every memory cell, barrier deadlock. Afterwards: final contents of all buffers and the inputs every "
     "kernel/copy read equal the sequential single-core reference. non-trivial = the pass inserted >= 1 barrier and >= 2 cores accessed memory; "
     "distinct = hash of (program, environments)."
@@ -29,10 +31,15 @@ def gen_case(rng, tier):
     prof["views"] = rng.random() < 0.3  # dependencies through subviews of one allocation
     prof["streams"] = rng.random() < 0.15  # streaming regions: XDMA extension kernels on the DM core, snax_alu on the compute core
     prof["multiblock"] = rng.random() < 0.1  # several blocks (cf.cond_br): a barrier in one block does not cover the next
+    variant = rng.choices(["A", "B", "C", "D"], [55, 20, 17, 8])[0]
+    if variant in "CD":
+        # static allocation: buffers allocated late / freed early so that the allocator hands the same address out twice
+        prof.update(streams=False, multiblock=False, late_allocs=True, n_allocs=rng.choice([3, 4, 5]), p_dealloc=rng.choice([0.0, 0.0, 0.4]))
+        prof["top_stmts"] = rng.randint(3, 8)
     ast = B.BufGen(rng, prof).program()
     envs = [B.gen_env(rng, zero_trips=prof["zero_trips"]) for _ in range(K_ENVS[tier])]
     envs[0]["stall"] = False
-    return {"ast": ast, "envs": envs, "variant": "B" if rng.random() < 0.25 else "A"}
+    return {"ast": ast, "envs": envs, "variant": variant}
 
 
 def args_for(machine: BufferMachine, env):
@@ -51,12 +58,37 @@ def oplog_key(log):
     return out
 
 
+STATIC = "insert-sync-barrier,memref-to-snax,canonicalize,snax-allocate{mode=minimalloc},insert-sync-barrier"
+
+
+def same_or_undef(ref_val, sub_val):
+    return is_undef(ref_val) or ref_val == sub_val
+
+
+def compare_static(ref: BufferMachine, sub: BufferMachine):
+    """static-allocation variants: buffers have no identity any more, only what flows through them does.  Wherever the
+    sequential reference read / ends with data derived from uninitialised memory, any value is accepted."""
+    re_, se = ref.externals(), sub.externals()
+    bad = sorted(k for k in re_ if not same_or_undef(re_[k], se.get(k)))[:3]
+    if bad:
+        return "final-contents", f"cells {bad} of the function's arguments end as {[se.get(k) for k in bad]}, sequential reference {[re_[k] for k in bad]}"
+    ro, so = oplog_key(ref.oplog), oplog_key(sub.oplog)
+    if set(ro) != set(so) or any(len(ro[t]) != len(so[t]) for t in ro):
+        return "provenance", "the set of executed copies / kernels differs from the sequential reference"
+    for t in ro:
+        for k, ((_, r), (_, s_)) in enumerate(zip(ro[t], so[t])):
+            if len(r) != len(s_) or not all(same_or_undef(a, b) for a, b in zip(r, s_)):
+                return "provenance", f"execution {k} of op #{t} read other data than in the sequential reference (memory handed out twice, or overwritten too early)"
+    return None
+
+
 def execute(case):
     out = new_outcome()
     src = B.emit(case["ast"])
+    static = case["variant"] in ("C", "D")
     try:
         P = compile_variant(src, None)
-        S = compile_variant(src, "insert-sync-barrier")
+        S = compile_variant(src, STATIC if static else "insert-sync-barrier")
     except Rejected as r:
         out["status"] = "rejected"
         out["rejected"] = f"{r.stage}:{r.cls}"
@@ -70,11 +102,12 @@ def execute(case):
         n = env["cores"]
         out["runs"] += 2
         ref = BufferMachine(P, 1, sequential=True)
+        ref.taint = static
         ref.run_single("f", args_for(ref, env), Core(0))
-        if case["variant"] == "B":
+        if case["variant"] in ("B", "D"):
             if n not in compiled_b:
                 try:
-                    compiled_b[n] = compile_variant(src, f"insert-sync-barrier,dispatch-regions{{nb_cores={n}}}")
+                    compiled_b[n] = compile_variant(src, f"{STATIC if static else 'insert-sync-barrier'},dispatch-regions{{nb_cores={n}}}")
                 except Rejected as r:
                     out["status"] = "rejected"
                     out["rejected"] = f"{r.stage}:{r.cls}"
@@ -92,11 +125,18 @@ def execute(case):
         except Violation as v:
             out.update(status="violation", oracle=v.oracle, message=v.message, env_index=i, details=v.details, tape=[list(x) for x in tape.log])
             return out
-        if sub.mem != ref.mem:
+        if static:
+            d = compare_static(ref, sub)
+            if d:
+                out.update(status="violation", oracle=d[0], message=d[1], env_index=i, tape=[list(x) for x in tape.log])
+                return out
+            reuse = len(set(sub.static_addrs.values())) < len(sub.static_addrs)
+            out["probes"]["static-address-handed-out-twice"] = out["probes"].get("static-address-handed-out-twice", 0) + reuse
+        elif sub.mem != ref.mem:
             bad = sorted(k for k in ref.mem if sub.mem.get(k) != ref.mem[k])[:3]
             out.update(status="violation", oracle="final-contents", message=f"cells {bad} end as {[sub.mem.get(k) for k in bad]}, sequential reference {[ref.mem[k] for k in bad]}", env_index=i)
             return out
-        if oplog_key(sub.oplog) != oplog_key(ref.oplog):
+        if not static and oplog_key(sub.oplog) != oplog_key(ref.oplog):
             out.update(status="violation", oracle="provenance", message="some copy/kernel read other data than in the sequential reference", env_index=i)
             return out
         cores_touching = {c for c, *_ in sub.oplog}
@@ -118,8 +158,8 @@ def shrink(case):
     if len(case["envs"]) == 1:
         for e in B.shrink_env(case["envs"][0]):
             yield dict(case, envs=[e])
-    if case["variant"] == "B":
-        yield dict(case, variant="A")
+    if case["variant"] in ("B", "D"):
+        yield dict(case, variant="A" if case["variant"] == "B" else "C")
     for nb in B.shrink_body(case["ast"]["body"]):
         yield dict(case, ast=dict(case["ast"], body=nb))
     if case["ast"].get("blocks"):
@@ -135,7 +175,7 @@ def sample_of(case):
 
 
 META = {
-    "real": ["snaxc/transforms/insert_sync_barrier.py", "snaxc/util/dispatching_rules.py", "snaxc/transforms/dispatch_regions.py (variant B)"],
+    "real": ["snaxc/transforms/insert_sync_barrier.py", "snaxc/util/dispatching_rules.py", "snaxc/transforms/dispatch_regions.py (variants B, D)", "snaxc/transforms/memref_to_snax.py + snax_allocate.py MiniMallocate (variants C, D: life times, inserted deallocs, constant addresses)"],
     "stub": [
         "IR interpreter (simsnax/interp.py); multi-core scheduler, cluster barrier, symbolic memory with race monitor (simsnax/cluster.py)",
         "core roles in variant A follow the dispatch rule re-stated in /verif",
@@ -145,7 +185,8 @@ META = {
         "A4 a memref.copy / kernel reads all inputs and writes all outputs, in bursts, not atomically",
         "A5 the barrier releases when all cores arrived",
         "A6 memref.alloc executed by several cores denotes one buffer and is not a synchronisation point",
-        "memref.dealloc is a no-op (snax-to-func erases it)",
+        "memref.dealloc is a no-op (snax-to-func erases it); in the static-allocation variants the memory of a buffer is whatever address snax-allocate put into its descriptor, shared with every other buffer at that address",
+        "static-allocation variants: the minimalloc package is absent; its stand-in is a first-fit packer over closed life times (lowest address first, so addresses are reused as often as possible); data derived from uninitialised memory in the sequential reference matches anything",
         "buffer contents are touched only by data-mover and compute ops; allocations sit at function top level",
     ],
     "interleavings": "hash of the per-run sequence of (core, barrier | memory burst | done) scheduler events",
